@@ -105,7 +105,7 @@ def make_update_inputs(node: "BaseNode"):
                     f"{c.delay_dist} != {_inputs_undelayed.delay_dist}. \n"
                     f"Compare the delay distributions provided to .connect(dela_dist=...) with graph_state.inputs[{node.name}][{c.output_node.name}].delay_dist."
                 )
-            _inputs = _inputs_undelayed.delay_dist.apply_delay(c.output_node.rate, _inputs_undelayed, ts_start)
+            _inputs = _inputs_undelayed.delay_dist.apply_delay(c.output_node.rate, _inputs_undelayed, ts_start, skip=c.skip)
             new_inputs[input_name] = _inputs
         return ss.replace(eps=eps, seq=seq, ts=ts_start, inputs=FrozenDict(new_inputs))
 
